@@ -23,7 +23,7 @@ def anchors():
     return m
 
 def sh(cmd, cwd, env=ENV, timeout=3600):
-    p = subprocess.run(cmd, shell=True, cwd=cwd, env=env, stdout=subprocess.PIPE, stderr=subprocess.STDOUT, text=True, timeout=timeout)
+    p = subprocess.run(cmd, shell=True, cwd=cwd, env=env, stdout=subprocess.PIPE, stderr=subprocess.STDOUT, text=True, errors='replace', timeout=timeout)
     return p.returncode, "\n".join(l for l in p.stdout.splitlines() if "conda" not in l)
 
 def check(repo, prop):
